@@ -40,6 +40,8 @@ class Dest(object):
     self.peer_proto = {}      # transport -> downstream listener protocol
     self.peer_got = []        # what the downstream listener decoded
     self.peer_fed = 0
+    self.dn_paused = {}       # transport -> the downstream listener has paused reading
+    self.dn_last = {}         # transport -> when the downstream listener last ingested a datapoint
     self.unwritten_start = 0  # index into accepted(non-self) of first not yet written
     self.removed_epochs = 0
 
@@ -58,6 +60,9 @@ class RelayWorld(object):
     self.accept_log = []       # per event: (dest, metric, dp, outcome)
     self.stopping = False
     self.proto_kind = self.settings.DESTINATION_PROTOCOL
+    self.dn_points = set(plan.get('dn_pause') or ())   # downstream pauses after its n-th datapoint
+    self.dn_count = 0
+    self.dn_idle = plan.get('dn_idle')
     # limits derived from the configuration as the documentation states them, not read
     # back from the module under test
     cs = w.cfg['settings']
@@ -108,13 +113,80 @@ class RelayWorld(object):
       self.ref_rules_file = routeprops.RefRulesFile(path, self.w.cfg['files'].get('aggregation-rules.conf'))
       self.t0 = r.seconds()
       r.callLater(10.0, self.ref_rules_tick)
+      self.install_rules_fault_seam(path)
     # tie-break randomness inside twisted's reconnect back-off
     import random as _random
     self.w.tip.random = _random.Random(self.plan.get('jitter_seed', 1))
 
+  def install_rules_fault_seam(self, path):
+    """carbon.aggregator.rules reads its file with the builtin open(): a module-level
+    `open` of ours can make that read fail (EIO at open, or after the first line)."""
+    import errno
+    import carbon.aggregator.rules as crules
+    self.rules_fault_armed = None
+    self.rules_fault_fired_at = None
+    me = self
+
+    class FailingLines(object):
+      def __init__(self, f):
+        self.f, self.n = f, 0
+
+      def __iter__(self):
+        return self
+
+      def __next__(self):
+        if self.n >= 1:
+          self.f.close()
+          raise IOError(errno.EIO, 'Input/output error (injected)', path)
+        self.n += 1
+        return next(self.f)
+
+    def sim_open(name, *a, **kw):
+      f = open(name, *a, **kw)
+      if name == path and me.rules_fault_armed:
+        mode, me.rules_fault_armed = me.rules_fault_armed, None
+        me.rules_fault_fired_at = me.r.seconds()
+        me.ctx.fault('rules_file_read_error_' + mode)
+        if mode == 'open':
+          f.close()
+          raise IOError(errno.EIO, 'Input/output error (injected)', path)
+        return FailingLines(f)
+      return f
+    crules.open = sim_open
+
+    # the name cache of every rule reads a monotonic clock that may move on between two
+    # reads (the process was descheduled): decided by the run's choices
+    timer = getattr(self.w, 'ttl_timer', None)
+    if timer is not None:
+      self.ttl_skew = 0.0
+      jump = float(self.settings.CACHE_METRIC_NAMES_TTL or 0) + 0.5
+
+      import sys
+
+      self.ttl_prev_test = False
+
+      def ttl_time():
+        # the clock moves on between a membership test and the read that follows it (the
+        # only pair of reads an entry can expire between unnoticed)
+        f, is_test = sys._getframe(1), False
+        for _ in range(3):
+          if f is None:
+            break
+          if f.f_code.co_name == '__contains__':
+            is_test = True
+            break
+          f = f.f_back
+        after_test, me.ttl_prev_test = me.ttl_prev_test, is_test
+        if after_test and not is_test and me.ctx.ch.pick('ttlclock', 2) == 1:
+          me.ttl_skew += jump
+          me.ctx.fault('name_cache_clock_moves_between_reads')
+        return me.r.seconds() + me.ttl_skew
+      timer.fn = ttl_time
+
   def ref_rules_tick(self):
     n = self.ref_rules_file.nreloads
-    self.ref_rules_file.tick()
+    faulted = bool(self.rules_fault_armed) or self.rules_fault_fired_at == self.r.seconds()
+    self.ref_rules_file.tick(faulted)
     if self.ref_rules_file.nreloads != n:
       self.ctx.probe('aggregation_rules_reloaded')
     if self.r.running:
@@ -349,45 +421,115 @@ class RelayWorld(object):
     data = bytes(t.delivered[d.peer_fed_of(t):]) if False else None
     return data
 
-  def pump_peers(self):
-    """Move bytes the peers have read into real downstream listener protocols."""
+  def pump_peers(self, final=False):
+    """Move bytes the peers have read into real downstream listener protocols.  The
+    downstream daemon may pause its receivers from inside a chunk (its cache filled up
+    while a frame was being stored) and resumes at a later event."""
     P = self.w.protocols
     ev = self.w.events.metricReceived
+    points = self.dn_points
     for d in self.dests.values():
       for t in d.conns:
+        proto = d.peer_proto.get(t)
+        if proto is not None and proto.transport.disconnected:
+          continue                  # the downstream end is closed: nobody reads any more
+        if proto is not None and d.dn_paused.get(t):
+          d.dn_paused[t] = False
+          proto.resumeReceiving()
+          self.ctx.probe('downstream_listener_resumed')
         off = getattr(t, '_fed', 0)
         data = bytes(t.delivered[off:])
         if not data:
           continue
-        t._fed = off + len(data)
-        proto = d.peer_proto.get(t)
         if proto is None:
           proto = (P.MetricPickleReceiver if self.proto_kind == 'pickle' else P.MetricLineReceiver)()
           from .reactor import SimTransport
-          proto.makeConnection(SimTransport(self.r, label='downstream'))
+          proto.makeConnection(SimTransport(self.r, label='downstream',
+                                            on_close=lambda tr, f, d=d, t=t, proto=proto:
+                                            self.downstream_closed(d, t, proto, f)))
           d.peer_proto[t] = proto
+          d.dn_last[t] = self.r.seconds()
+          if self.dn_idle:
+            # the downstream daemon runs with METRIC_CLIENT_IDLE_TIMEOUT
+            proto.setTimeout(self.dn_idle)
         saved = ev.handlers
         got = d.peer_got
-        ev.handlers = [lambda metric, datapoint, got=got: got.append((metric, tuple(datapoint)))]
+
+        def handler(metric, datapoint, got=got, d=d, t=t, proto=proto):
+          got.append((metric, tuple(datapoint)))
+          d.dn_last[t] = self.r.seconds()
+          self.dn_count += 1
+          if self.dn_count in points and not final:
+            d.dn_paused[t] = True
+            self.ctx.fault('downstream_pause_inside_a_chunk')
+            proto.pauseReceiving()
+        ev.handlers = [handler]
+        pos = 0
         try:
-          pos = 0
           while pos < len(data):
             k = 1 + self.ctx.ch.pick('reseg', 7) * self.ctx.ch.pick('reseg2', 40)
             proto.dataReceived(data[pos:pos + k])
             pos += k
+            if d.dn_paused.get(t):
+              break                 # a paused transport reads nothing more for now
         except Exception as e:
           self.ctx.violation('C15', 'downstream-exception', type(e).__name__,
                              'downstream %s listener raised %r' % (self.proto_kind, e))
+          pos = len(data)
         finally:
           ev.handlers = saved
+        t._fed = off + min(pos, len(data))
+
+  def downstream_closed(self, d, t, proto, reason):
+    """The downstream listener closed the connection: legitimate only as its idle timeout."""
+    idle = self.r.seconds() - d.dn_last.get(t, self.r.seconds())
+    if self.dn_idle and idle >= self.dn_idle - 1e-6:
+      self.ctx.fault('downstream_idle_timeout_closed_connection')
+    else:
+      self.ctx.violation('C15', 'downstream-closed-active-connection', self.proto_kind,
+                         '%s: the %s listener closed the connection of the relay %.3f s after the last '
+                         'datapoint it ingested on it (idle timeout %r)' % (
+                           d.dest, self.proto_kind, idle, self.dn_idle))
+    try:
+      proto.connectionLost(reason)
+    except Exception as e:
+      self.ctx.violation('C15', 'downstream-exception', type(e).__name__,
+                         'downstream connectionLost raised %r' % (e,))
+    if not t.disconnected:
+      t.peer_close()
+
+  def count_complete(self, data):
+    """Datapoints in the complete frames / lines of a byte string (harness decoder)."""
+    n = 0
+    if self.proto_kind == 'pickle':
+      while len(data) >= 4:
+        k = struct.unpack('!I', data[:4])[0]
+        if len(data) < 4 + k:
+          break
+        try:
+          n += len(pickle.loads(data[4:4 + k]))
+        except Exception:
+          pass
+        data = data[4 + k:]
+      return n
+    return data.count(b'\n')
 
   def check_downstream(self):
     """C15: what the real downstream listener decoded equals what the client wrote
     (for data the peer has read in full)."""
+    # everything the peers have read reaches the listeners (two rounds: resume, then feed)
+    self.pump_peers(final=True)
+    self.pump_peers(final=True)
     for d in self.dests.values():
       got = d.peer_got
       wrote = d.written
       n = len(got)
+      fed = sum(self.count_complete(bytes(t.delivered[:getattr(t, '_fed', 0)])) for t in d.conns)
+      if n < fed:
+        self.ctx.violation('C15', 'downstream-lost', self.proto_kind,
+                           '%s: the peer read %d complete datapoints and handed them to the %s '
+                           'listener, which ingested only %d (connections open, receivers resumed, '
+                           'nothing more to come)' % (d.dest, fed, self.proto_kind, n))
       if n > len(wrote):
         self.ctx.violation('C15', 'downstream-extra', self.proto_kind,
                            '%s: listener decoded %d datapoints, client wrote %d' % (d.dest, n, len(wrote)))
@@ -602,7 +744,10 @@ class RelayWorld(object):
     elif k == 'file':
       from . import boot
       boot.write_file(op[1], op[2], int(self.r.seconds()) + 1)
-      self.ctx.fault('rules_file_rewritten')
+      self.ctx.fault('rules_file_rewritten' if op[2] is not None else 'rules_file_removed')
+    elif k == 'rules_fault':
+      if getattr(self, 'ref_rules_file', None) is not None:
+        self.rules_fault_armed = op[1]
     elif k == 'stopclient':
       d = ds[op[1] % len(ds)]
       try:
